@@ -43,10 +43,10 @@ func (b *hexb) UnmarshalJSON(data []byte) error {
 
 type acvpFile struct {
 	KeyGen []struct {
-		Set        string `json:"set"`
-		TcID       int    `json:"tcId"`
-		Seed, Pk   hexb
-		Sk         hexb
+		Set      string `json:"set"`
+		TcID     int    `json:"tcId"`
+		Seed, Pk hexb
+		Sk       hexb
 	} `json:"keyGen"`
 	SigGen []struct {
 		Set           string `json:"set"`
